@@ -25,6 +25,7 @@ func main() {
 	nopanic := flag.Bool("nopanic", false, "run the no-panic clause (mutated requests, root fields on signed data) instead of the semantics cases")
 	seed := flag.Int64("seed", 1, "seed")
 	skipops := flag.String("skipops", "", "mutation operators to skip (comma separated)")
+	tt := flag.Int("timetravel", 0, "every k-th filtered list case also queries each document at its latest commit with the filter")
 	progress := flag.String("progress", "", "file holding the request being executed")
 	flag.Parse()
 	f, err := os.Open(*cases)
@@ -76,7 +77,7 @@ func main() {
 		fmt.Printf("requests=%d crashes=%d\n", res.Requests, len(res.Crashes))
 		return
 	}
-	r := &queryrun.Runner{Ctx: ctx, LateIndex: *late, Churn: *churn}
+	r := &queryrun.Runner{Ctx: ctx, LateIndex: *late, Churn: *churn, TimeTravel: *tt}
 	start := time.Now()
 	done := 0
 	indexUsed := 0
@@ -112,7 +113,7 @@ func main() {
 			break
 		}
 	}
-	js, _ := json.MarshalIndent(map[string]any{"cases": len(all), "done": done, "executed": r.Executed, "errors": r.Errors, "by_kind": r.ByKind, "index_used": indexUsed,
+	js, _ := json.MarshalIndent(map[string]any{"cases": len(all), "done": done, "executed": r.Executed, "errors": r.Errors, "by_kind": r.ByKind, "index_used": indexUsed, "time_travel_queries": r.TimeTravels,
 		"mismatches": r.Mismatches, "wall_s": time.Since(start).Seconds()}, "", " ")
 	os.WriteFile(*out, js, 0o644)
 	fmt.Printf("cases=%d executed=%d mismatches=%d wall=%.1fs\n", done, r.Executed, len(r.Mismatches), time.Since(start).Seconds())
